@@ -121,7 +121,7 @@ def shift_instances():
                 for d in (1, -1):
                     for off in (0, 1, 2, 3):
                         for bs in ((-1,) if sa > 0 else (0, 1, 63)):
-                            quick = ((not ka) or (la, ha) in Q) and off <= 2
+                            quick = ((not ka) or (la, ha) in Q) and off <= 2 and not (bs < 0 and d < 0 and off > ha)
                             out.append({"name": "k%d_a%d_%d%s_%s%d_%s" % (ka, la, ha, "p" if sa > 0 else "n", "l" if d > 0 else "r", off, "bsym" if bs < 0 else "b%d" % bs),
                                         "defs": {"KA": ka, "LA": la, "HA": ha, "SGA": sa, "DIR": d, "OFF": off, "BS": bs, "BN_WIDE_BITS": 512},
                                         "tiers": ["quick", "thorough"] if quick else ["thorough"]})
